@@ -32,7 +32,9 @@ def parseName (s : String) : Option Name :=
 
 def showName (n : Name) : String := "." ++ String.ofList n
 
-/-- `Kind[:val]@tag`.  Validator 0 = Int, 1 = Str (see `env`). -/
+/-- `Kind[:val]@tag`.  Validator 0 = Int, 1 = Str (see `env`).  `Deleg` is
+`DelegatesTo('dg')` with `dg` left at `None`: reads end in AttributeError,
+writes in DelegationError (`env.delegGet` / `delegSet`). -/
 def parseSpec (s : String) : Option Trait :=
   match s.splitOn "@" with
   | [body, tag] =>
@@ -57,6 +59,7 @@ def parseSpec (s : String) : Option Trait :=
         | "EvInt" => some { kind := .event, dflt := .undef, validator := some 0, tag := tag }
         | "Dis" => some { kind := .disallow, dflt := .undef, tag := tag }
         | "Py" => some { kind := .python, dflt := .undef, tag := tag }
+        | "Deleg" => some { kind := .delegate, dflt := .undef, tag := tag }
         | _ => none
   | _ => none
 
